@@ -88,8 +88,11 @@ type Waiter struct {
 	MID   uint32 // id of the wanted lock (assigned at first use within the run)
 	// PostUnlock: not a lock acquisition but the scheduling point that follows a release (unlock-yield pass)
 	PostUnlock bool
-	pcs        [40]uintptr
-	npcs       int
+	// Explicit: the release was an Unlock / RUnlock statement in the middle of a function (not a deferred one), i.e.
+	// the function goes on after it - the overlay build puts UnlockPoint() behind every such statement
+	Explicit bool
+	pcs      [40]uintptr
+	npcs     int
 }
 
 // StackHas reports whether any frame of the parked goroutine (up to 40 frames above the lock call) is a function whose
@@ -126,6 +129,8 @@ type Scheduler struct {
 	// point of the releasing goroutine, so that the step after an unlock can be separated from the critical section
 	// by whatever else is runnable (and held there by the driver like at any other site). Set before the run starts.
 	UnlockYield bool
+	// PUHits counts the parks at explicit unlock points per site signature (unlock-yield pass only)
+	PUHits map[string]int
 }
 
 // NewScheduler must be called inside the bubble of the run.
@@ -277,6 +282,12 @@ func (s *Scheduler) park(w *Waiter) {
 	w.Seq = s.seq
 	s.parked = append(s.parked, w)
 	s.SigHits[w.Sig]++
+	if w.Explicit {
+		if s.PUHits == nil {
+			s.PUHits = map[string]int{}
+		}
+		s.PUHits[w.Sig]++
+	}
 	gunlock()
 	s.Signal()
 	raceOff()
@@ -491,17 +502,27 @@ func Yield() {
 	if cur.Load() == nil {
 		return
 	}
-	yieldNow(false)
+	yieldNow(false, false)
+}
+
+// UnlockPoint is put behind every Unlock / RUnlock statement of the emulator by the overlay build (deferred releases
+// are not statements of their own and get none). Outside the unlock-yield pass it does nothing.
+//
+//go:norace
+func UnlockPoint() {
+	if s := cur.Load(); s != nil && s.UnlockYield {
+		yieldNow(true, true)
+	}
 }
 
 //go:norace
-func yieldNow(postUnlock bool) {
+func yieldNow(postUnlock, explicit bool) {
 	s := cur.Load()
 	if s == nil {
 		return
 	}
 	var m Mutex
-	s.park(&Waiter{m: &m, Kind: KLock, PostUnlock: postUnlock})
+	s.park(&Waiter{m: &m, Kind: KLock, PostUnlock: postUnlock, Explicit: explicit})
 	glock()
 	m.held = false
 	gunlock()
@@ -513,6 +534,6 @@ func yieldNow(postUnlock bool) {
 //go:norace
 func afterUnlock() {
 	if s := cur.Load(); s != nil && s.UnlockYield {
-		yieldNow(true)
+		yieldNow(true, false)
 	}
 }
